@@ -396,6 +396,14 @@ def run(tier: str, seed: int) -> int:
     n_world, n_rel, n_dice, maxops = (250, 120, 200, 14) if tier == "quick" else (3000, 1200, 2000, 40)
     dist = {"ops": {}, "results": {}}
 
+    # ---- tighter tie: regenerate the Gallina from the CURRENT source and re-check equalities + theorems over it ----
+    from . import c20_gen
+    tr = c20_gen.check_translation(chk)
+    extra_w, extra_r = [], []
+    if not tr["ok"]:   # search harder for a concrete failing input around the function whose source changed
+        extra_w = c20_gen.focused_cases(gen_world_case, rng, maxops + 10, tr["function"], 4 * n_world)
+        extra_r = c20_gen.focused_cases(gen_rel_case, rng, maxops + 10, tr["function"], 4 * n_rel)
+
     # ---- pinned known-finding witnesses ----
     with C.quiet():
         from bardic.stdlib.economy import Wallet, Shop
@@ -411,8 +419,8 @@ def run(tier: str, seed: int) -> int:
 
     world_terms, world_cases = [], []
     with C.quiet():
-        for i in range(n_world):
-            case = gen_world_case(rng, maxops)
+        for i in range(n_world + len(extra_w)):
+            case = extra_w[i - n_world] if i >= n_world else gen_world_case(rng, maxops)
             obs, fin_items, fin_stock = run_world_impl(case, chk)
             world_terms.append(world_term(case, obs, fin_items, fin_stock))
             world_cases.append(case)
@@ -425,8 +433,8 @@ def run(tier: str, seed: int) -> int:
             if i < 2:
                 chk.sample({"kind": "world", "case": case, "observed": obs})
         rel_terms, rel_cases = [], []
-        for i in range(n_rel):
-            case = gen_rel_case(rng, maxops)
+        for i in range(n_rel + len(extra_r)):
+            case = extra_r[i - n_rel] if i >= n_rel else gen_rel_case(rng, maxops)
             obs, topics, quality, name = run_rel_impl(case, chk)
             rel_terms.append(rel_term(case, obs, topics, quality, name))
             rel_cases.append(case)
@@ -458,6 +466,10 @@ def run(tier: str, seed: int) -> int:
                              {"case": cases[b], "model_says": shown.get(b)})
             else:
                 chk.disagree(label + "-coqc", "case shard failed to evaluate", {"log": log})
+    if not tr["ok"]:
+        chk.disagree(f"translation:{tr['function'] or tr['stage']}",
+                     f"bardic/stdlib no longer translates to the model Stdlib/Game.v ({tr['stage']}): {tr['detail']}",
+                     {"translation": tr, "extra_cases_searched": len(extra_w) + len(extra_r)})
     chk.cov["programs"] = len(world_terms) + len(rel_terms) + len(dice_terms)
     chk.cov["disagreements_checked"] = chk.cov["programs"]
     chk.cov["disagreements_found"] = disagreements
